@@ -3,9 +3,25 @@
 #ifndef TETL_CMATH_FMAX_HPP
 #define TETL_CMATH_FMAX_HPP
 
-#include <etl/_3rd_party/gcem/gcem.hpp>
+#include <etl/_cmath/isnan.hpp>
 
 namespace etl {
+
+namespace detail {
+
+template <typename T>
+[[nodiscard]] constexpr auto fmax(T x, T y) noexcept -> T
+{
+    if (etl::isnan(x)) {
+        return y;
+    }
+    if (etl::isnan(y)) {
+        return x;
+    }
+    return x < y ? y : x;
+}
+
+} // namespace detail
 
 /// \ingroup cmath
 /// @{
@@ -14,20 +30,20 @@ namespace etl {
 /// missing data (between a NaN and a numeric value, the numeric value is chosen)
 ///
 /// https://en.cppreference.com/w/cpp/numeric/math/fmax
-[[nodiscard]] constexpr auto fmax(float x, float y) noexcept -> float { return etl::detail::gcem::max(x, y); }
+[[nodiscard]] constexpr auto fmax(float x, float y) noexcept -> float { return etl::detail::fmax(x, y); }
 
-[[nodiscard]] constexpr auto fmaxf(float x, float y) noexcept -> float { return etl::detail::gcem::max(x, y); }
+[[nodiscard]] constexpr auto fmaxf(float x, float y) noexcept -> float { return etl::detail::fmax(x, y); }
 
-[[nodiscard]] constexpr auto fmax(double x, double y) noexcept -> double { return etl::detail::gcem::max(x, y); }
+[[nodiscard]] constexpr auto fmax(double x, double y) noexcept -> double { return etl::detail::fmax(x, y); }
 
 [[nodiscard]] constexpr auto fmax(long double x, long double y) noexcept -> long double
 {
-    return etl::detail::gcem::max(x, y);
+    return etl::detail::fmax(x, y);
 }
 
 [[nodiscard]] constexpr auto fmaxl(long double x, long double y) noexcept -> long double
 {
-    return etl::detail::gcem::max(x, y);
+    return etl::detail::fmax(x, y);
 }
 
 /// @}
